@@ -404,3 +404,29 @@ def g7_equivalence_folding(ctx) -> None:
         ctx.ok("G7", "the validity test: the root occurs, and every class of every rule has a rule or is empty")
     else:
         ctx.violation("G7", vs.node, "_is_valid_spec must test that the root occurs and that every class on either side of every rule has a rule or is empty", construct=f"{SP}._is_valid_spec")
+
+
+def g8_labels_after_final_rules(ctx) -> None:
+    """Labels are handed out by walking the rules from the root; the walk sees what the
+    specification finally consists of only after equivalence chains were folded into paths
+    and the lazily added rules exist.  Labelled earlier, a specification and its own reloaded
+    copy (which is built from the folded rules) number their classes differently."""
+    P = ctx.P
+    m = P.need_method(SP, "__init__", own=True)
+    f = m.node
+    ctx.analysed(m)
+    def calls(name):
+        return [C.stmt_of(c) for c in walk_local(f) if isinstance(c, ast.Call) and norm(c.func) == f"self.{name}"]
+    lab, grp, sub = calls("_enforce_labels"), calls("_group_equiv_in_path"), calls("_set_subrules")
+    if len(lab) != 1 or not grp:
+        raise AnalysisError("G8: CombinatorialSpecification.__init__ no longer calls _group_equiv_in_path / _enforce_labels once")
+    def top(st):
+        cur = st
+        while getattr(cur, "_parent", None) is not f:
+            cur = cur._parent
+        return f.body.index(cur)
+    if all(top(g) < top(lab[0]) for g in grp) and all(top(s_) < top(lab[0]) for s_ in sub):
+        ctx.ok("G8", "labels are assigned after the rules were folded into equivalence paths and wired")
+    else:
+        ctx.violation("G8", lab[0], "labels are assigned (_enforce_labels) before the specification's rules have their final form (_group_equiv_in_path / _set_subrules): the "
+                      "classes inside an equivalence path get labels, and a reloaded copy -- built from the folded rules -- numbers its classes differently")
